@@ -14,3 +14,14 @@ func scribbleRecall(call func() []byte) (first []byte, ok bool) {
 	r2 := call()
 	return saved, bytes.Equal(r2, saved)
 }
+
+// retainedAcross checks that a result stays valid while the library is used further: the first result is kept, the
+// function is called again with *different* arguments (variant 1), and the first result must still hold the bytes it
+// held when it was returned (a result that aliases pooled or package-level storage is overwritten by the later call).
+func retainedAcross(call func(variant int) []byte) bool {
+	r0 := call(0)
+	saved := append([]byte{}, r0...)
+	_ = call(1)
+	_ = call(2)
+	return bytes.Equal(r0, saved)
+}
